@@ -2,12 +2,14 @@
 """Evaluate independently authored seeded changes found in /tmp/mut-<id>-out/ and keep the confirmed ones
 under /verif/seeded/<id>-<k>/ (patch.diff, demo_test.go, meta.json incl. what was run and which check caught it)."""
 import json, os, subprocess, sys, shutil, glob, re
-ids = sys.argv[1:] or sorted(set(re.search(r'mut-(C\d+)-out', d).group(1) for d in glob.glob('/tmp/mut-C*-out')))
+WAVE = int(os.environ.get('WAVE', '1'))
+PFX = '/tmp/mut' + ('' if WAVE == 1 else str(WAVE))
+ids = sys.argv[1:] or sorted(set(re.search(r'-(C\d+)-out', d).group(1) for d in glob.glob(PFX + '-C*-out')))
 for pid in ids:
-    out = f'/tmp/mut-{pid}-out'
+    out = f'{PFX}-{pid}-out'
     for k in (1, 2, 3):
         patch, demo, meta = f'{out}/patch{k}.diff', f'{out}/demo{k}_test.go', f'{out}/meta{k}.json'
-        dest = f'/verif/seeded/{pid}-{k}'
+        dest = f'/verif/seeded/{pid}-{k + 2 * (WAVE - 1)}'
         if not (os.path.exists(patch) and os.path.exists(demo) and os.path.exists(meta)) or os.path.exists(dest + '/meta.json'):
             continue
         extra = [a for a in os.environ.get('ALSO', '').split() if a != pid]
@@ -27,12 +29,13 @@ for pid in ids:
                   'caught_by': [{'check': c, 'tier': t} for c, t in caught], 'missed_by': missed,
                   'what_was_run': 'tools/try_seeded.sh patch.diff demo_test.go %s %s (scratch worktree of /repo HEAD %s)' % (pid, ' '.join(extra), subprocess.run(['git','-C','/repo','rev-parse','--short','HEAD'],capture_output=True,text=True).stdout.strip()),
                   'result_lines': lines})
-        print(f"{pid}-{k}: confirmed={confirmed} caught={caught} missed={missed} :: {m.get('summary','')[:110]}")
+        m['wave'] = WAVE
+        print(f"{os.path.basename(dest)}: confirmed={confirmed} caught={caught} missed={missed} :: {m.get('summary','')[:110]}")
         if confirmed:
             os.makedirs(dest, exist_ok=True)
             shutil.copy(patch, dest + '/patch.diff'); shutil.copy(demo, dest + '/demo_test.go')
             json.dump(m, open(dest + '/meta.json', 'w'), indent=1)
         else:
             os.makedirs('/verif/work/rejected-seeds', exist_ok=True)
-            json.dump(m, open(f'/verif/work/rejected-seeds/{pid}-{k}.json', 'w'), indent=1)
+            json.dump(m, open(f'/verif/work/rejected-seeds/{os.path.basename(dest)}.json', 'w'), indent=1)
             print('   ', txt.replace('\n', '\n    ')[:1500])
